@@ -1063,6 +1063,24 @@ pub fn gen_c17(tier: Tier, run: u64, rng: &mut Rng) -> BuilderCase {
         c.dups = vec![(rng.usize_below(c.n), rng.urange(0, c.n))];
         c.low_mem = None;
     }
+    if run % 53 == 52 && !big {
+        // four real shards, at least three worker threads, duplicates in several shards: several workers fail in the same attempt
+        c.mode = "func".into();
+        c.combo = "f/usize/bfv-usize/s2/mwhc-shards".into();
+        c.eps = Some(1.0);
+        c.n = rng.urange(116_000, 135_000);
+        c.threads = *rng.pick(&[3usize, 4, 8]);
+        c.key_kind = "scatter".into();
+        c.check_dups = true;
+        c.offline = false;
+        c.disk = None;
+        c.key_source = None;
+        c.hint = Some(c.n);
+        c.hint_kind = "exact".into();
+        c.dups = (0..rng.urange(4, 7)).map(|_| (rng.usize_below(c.n), rng.urange(0, c.n))).collect();
+        c.low_mem = None;
+        c.sched = draw_sched(rng, 2);
+    }
     if big {
         c.check_dups = true;
         c.dups = vec![(rng.usize_below(n), rng.urange(0, n))];
